@@ -370,9 +370,11 @@ SPECS["C07"] = CheckSpec(
 
 SPECS["C08"] = CheckSpec(
     "C08", c08_jobs,
-    rule="explicit-state BFS over fault conversations (18 answers incl. send failure, foreign session, response cut "
+    rule="explicit-state BFS over fault conversations (22 answers incl. send failure, foreign session, response cut "
          "by a timeout / by a transport error, duplicate / unknown withdrawal, malformed PDU, cache restart, "
-         "Unsupported-Version report and version-0 answer (version change); open fails / fails slowly; Serial Notify, "
+         "Unsupported-Version report and version-0 answer (version change), Error Reports with the codes corrupt "
+         "data / invalid request / unsupported PDU type / unknown (each has its own branch in the client); open "
+         "fails / fails slowly; Serial Notify, "
          "transport error, silent publication while ESTABLISHED); from EVERY distinct reachable state a second "
          "execution replays the history and then lets cache and transport behave: the client must reach ESTABLISHED "
          "with exactly the cache's current data (prefix part only once the socket speaks version 0) within "
@@ -471,8 +473,9 @@ SPECS["C10"] = CheckSpec(
     "C10", c10_jobs,
     rule="explicit-state BFS over histories of add / remove (6 near-twin keys: two keys under one (AS,SKI), same key "
          "under two sources, two AS numbers brute-forced to share a bucket of the 64-bucket table and to part after "
-         "the first split, a third AS, a second SKI), remove-by-source (3 sources), reload (copy-except-source into a "
-         "fresh table + swap + notify-diff, the sequence rtr_sync performs), setting the number of filler keys to "
+         "the first split, a third AS, a second SKI that differs from the first in its last octet only), remove-by-source "
+         "(3 sources), reload of a source with the empty set / its first universe key / all its universe keys "
+         "(copy-except-source into a fresh table, fill, swap, notify-diff: the sequence rtr_sync performs), setting the number of filler keys to "
          "levels such as 0/12/33/70/130 in any order (grow, shrink, mid-split states of the linear hash and turning "
          "around inside a resize); in every distinct state spki_table_get_all for "
          "every (AS,SKI) and spki_table_search_by_ski for every SKI are compared with the model as multisets, return "
@@ -589,7 +592,8 @@ SPECS["C14"] = CheckSpec(
     "C14", c14_jobs,
     rule="the C04 streams with an identifiable offending PDU (bad length, unknown type, foreign version, unexpected PDU, "
          "session mismatch in Cache Response / End of Data, duplicate announcement, unknown withdrawal, bad flags / "
-         "over-long prefix, received Error Report) x partial-write patterns of send (all, 1 byte, half, error) as "
+         "over-long prefix, received Error Report with every code 0..9 / 255) x partial-write patterns and faults of "
+         "send (all, 1 byte, half; error, would-block, closed) as "
          "deviations (one per execution together with read deviations, and up to three on the send side alone: several "
          "short writes of one report); every byte handed to send() must parse into complete PDUs of the negotiated version with length "
          "field = bytes and <= 3248; the first Error Report must carry an accepted code for the class, encapsulate a "
@@ -823,7 +827,7 @@ SPECS["C11"] = CheckSpec(
     "C11", c11_jobs,
     rule="case = (path, NLRI, key table): all paths of 1..3 (thorough 4) hops over pCount {0,1,255} x flags {0,0x80,0xff} "
          "x AS {1,65536,2^32-1} for IPv4 and IPv6, signed by the reference; every NLRI length 0..32 / 0..128; per hop "
-         "5 key-table configurations (right key under right AS, right key only under another AS, wrong + right key "
+         "8 key-table configurations (right key, key only under another AS, wrong + right key, wrong key only, SKI absent, undecodable key alone / before / after the right key) (right key under right AS, right key only under another AS, wrong + right key "
          "under one SKI, wrong key only, SKI absent) in all combinations; on accepted paths EVERY single-bit flip of "
          "every signed field (target AS, every pCount / flags / AS, suite, AFI, SAFI, NLRI length and bits, later SKIs, "
          "lengths, every signature bit); all suites != 1, AFIs outside {1,2}, unequal counts, signature lengths "
@@ -916,8 +920,9 @@ SPECS["C18"] = CheckSpec(
     "C18", c18_jobs,
     rule="with a user allocator installed through lrtr_set_alloc_functions (every block tagged with a header): (fault) "
          "5 prefix-table seed states x 12 operations, 7 key-table sizes (0,1,31,32,33,64,65: below / at / beyond the "
-         "resize steps) x 7 operations, and 8 cache responses through the real rtr_sync (deltas and reloads that succeed, "
-         "fail and roll back, three of them with 3 x 101 records so that the temporary PDU stores grow); for each the number n of "
+         "resize steps) x 7 operations, and 10 cache responses through the real rtr_sync (deltas and reloads that succeed, "
+         "fail and roll back - at a router key, at an IPv4 PDU after two withdrawals, at an IPv6 PDU across "
+         "families -, three of them with 3 x 101 records so that the temporary PDU stores grow); for each the number n of "
          "allocations is measured and the case is re-run n times with the k-th allocation failing, k = 1..n; a call that "
          "reports an error must leave the contents unchanged (as a set), a call that absorbs the failure must have its "
          "full effect, after a failed synchronisation the tables must still behave as sets and another source's records "
